@@ -367,6 +367,25 @@ def scalar_rank(ctx, fb):
         ctx.inst(R, 'scalar-only-if-all-scalar:' + label, ok, 'a scalar result is built only under an as_scalar()/all-scalar test of the inputs' if ok else
                  'a scalar (rank-0) result can be built without testing that the inputs are scalars, or no scalar path exists', f.loc())
 
+    # ---- Unsqueeze's value path turns a known *scalar* into the one-element vector [v] (axes == [0]): it must be guarded
+    # by SymTensor::as_scalar, not by a test that also matches one-element vectors (values()): Unsqueeze([v], 0) has rank 2
+    uf = [x for x in fb.fns(crate='rten_shape_inference') if x.has_mir() and re.search(r'ops::layout::Unsqueeze as .*InferShapes>::infer_shapes$', x.path)]
+    if ctx.anchor(R, 'Unsqueeze::infer_shapes', len(uf) == 1):
+        f = uf[0]
+        fv = [c for c in f.calls() if (c.callee or '').endswith('SymTensor::from_vec')]
+        ok = bool(fv)
+        for c in fv:
+            g_ok = False
+            for g in f.guards(c.bb):
+                cd = g.cond()
+                if cd[0] == 'disc' and (g.vals == [1] or (g.vals is None and g.excluded == [0])):
+                    og = f.place_origins(cd[1] if isinstance(cd[1], list) else [cd[1]])
+                    if any(o[0] == 'call' and (o[1] or '').endswith('SymTensor::as_scalar') for o in og):
+                        g_ok = True
+            ok = ok and g_ok
+        ctx.inst(R, 'unsqueeze-vector-only-from-scalar', ok, 'Unsqueeze builds the value vector [v] only under data.as_scalar() == Some(v)' if ok else
+                 'Unsqueeze builds a rank-1 value result without an as_scalar() test of its data: a one-element *vector* input (rank 1) would be inferred as rank 1 while execution produces rank 2', f.loc())
+
     # ---- constants entering inference: Constant::as_scalar (TensorBase::item) answers for *any* one-element tensor, so a
     # constant becomes a rank-0 symbolic value only under an explicit `ndim() == 0` test; otherwise a [1] / [1,1]
     # constant is given rank 0 and every shape computed from it (broadcast, Unsqueeze, Concat ...) loses dimensions
